@@ -167,6 +167,7 @@ def r09c(ctx):
         return
     comparison = ("edits", "__eq__", "__hash__", "__lt__", "calculate_total_size", "total_size")
     readers = []
+    comparison_reads = {}          # attribute name -> first read in equality / size / cost code
     for q in sorted(m.subclasses(TREE)):
         own = {k: v[1] for k, v in m.attrs[q].items() if v[0] == "def"}
         work = [own[n] for n in comparison if n in own]
@@ -179,11 +180,45 @@ def r09c(ctx):
             for x in walk_no_nested(f.node):
                 if isinstance(x, ast.Attribute) and isinstance(x.ctx, ast.Load) and x.attr in flags:
                     readers.append((f, x))
+                # `getattr(self, 'quoted', False)`, `vars(self).get('quoted')`, `self.__dict__['quoted']`: the flag read by name
+                if isinstance(x, ast.Constant) and isinstance(x.value, str) and x.value in flags:
+                    par_ = getattr(x, "_parent", None)
+                    if isinstance(par_, (ast.Call, ast.Subscript)):
+                        fake = ast.Attribute(value=ast.Name(id="self", ctx=ast.Load()), attr=x.value, ctx=ast.Load())
+                        ast.copy_location(fake, x)
+                        fake.value.lineno, fake.value.col_offset = x.lineno, x.col_offset
+                        readers.append((f, fake))
+                for a_ in ([x] if isinstance(x, ast.Attribute) and isinstance(x.ctx, ast.Load) else []):
+                    comparison_reads.setdefault(a_.attr, (f, a_))
                 if isinstance(x, ast.Call) and isinstance(x.func, ast.Attribute) and x.func.attr not in comparison:
                     # helper methods of node classes reached from comparison code (self.helper(), node.helper())
                     for k in m.subclasses(TREE):
                         if x.func.attr in m.attrs[k] and m.attrs[k][x.func.attr][0] == "def":
                             work.append(m.attrs[k][x.func.attr][1])
+    # a flag implemented as a property: what its setter stores besides the backing field is set by the loaders too
+    for flag in sorted(flags):
+        for q in sorted(m.subclasses(TREE)):
+            cnode = m.classes[q][1]
+            defs = [d for d in cnode.body if isinstance(d, ast.FunctionDef) and d.name == flag]
+            setter = next((d for d in defs if any(isinstance(x, ast.Attribute) and x.attr == "setter" for x in d.decorator_list)), None)
+            getter = next((d for d in defs if d is not setter), None)
+            if setter is None:
+                continue
+            backing = {self_attr(r.value) for r in walk_no_nested(getter) if isinstance(r, ast.Return) and r.value is not None} if getter else set()
+            for st in walk_no_nested(setter):
+                if isinstance(st, ast.Attribute) and isinstance(st.ctx, ast.Store) and self_attr(st) and self_attr(st) not in backing \
+                        and self_attr(st) in comparison_reads:
+                    fr, xr = comparison_reads[self_attr(st)]
+                    fake = ast.Attribute(value=ast.Name(id="self", ctx=ast.Load()), attr=flag, ctx=ast.Load())
+                    ast.copy_location(fake, st)
+                    readers.append((m.functions.get(f"{q}.{flag}") or fr, fake))
+                    ctx.note(f"R09c: the setter of `{flag}` in {q.rsplit('.', 1)[-1]} stores self.{self_attr(st)}, which {fr.short} reads")
+            for b_ in backing - {None}:
+                if b_ in comparison_reads:
+                    fr, xr = comparison_reads[b_]
+                    fake = ast.Attribute(value=ast.Name(id="self", ctx=ast.Load()), attr=flag, ctx=ast.Load())
+                    ast.copy_location(fake, xr)
+                    readers.append((fr, fake))
     n = 0
     for flag, sites in sorted(flags.items()):
         n += 1
